@@ -237,6 +237,26 @@ func xfReadChunkSim(S int64, off int64, l int, cap int) (reqs []xfChunk, got int
 	return reqs, got, false
 }
 
+// xfAppliedPrefix is the length of the contiguous run of bytes starting at `start` that the given stored
+// writes cover (at most max).
+func xfAppliedPrefix(applied []xfChunk, start int64, max int) int64 {
+	a := append([]xfChunk(nil), applied...)
+	sort.Slice(a, func(i, j int) bool { return a[i].Off < a[j].Off })
+	end := start
+	for _, c := range a {
+		if c.Off > end {
+			break
+		}
+		if e := c.Off + int64(c.Len); e > end {
+			end = e
+		}
+	}
+	if end-start > int64(max) {
+		return int64(max)
+	}
+	return end - start
+}
+
 // xfWireCheck compares the multiset of recorded (offset, length) requests with the required
 // ones; `optional` may additionally appear (each at most once). Returns "" when conformant.
 func xfWireCheck(rec, required []xfChunk, optional func(xfChunk) bool) string {
@@ -627,10 +647,24 @@ func (p *xfReal) Shutdown() {
 // ---------- in-memory handlers for the request server ----------
 
 type xfMemFS struct {
-	mu     sync.Mutex
-	files  map[string][]byte
-	Opens  int
-	Closes int
+	mu      sync.Mutex
+	files   map[string][]byte
+	Opens   int
+	Closes  int
+	limit   int64     // > 0: a non-empty WriteAt reaching beyond this offset is refused (nothing is stored)
+	applied []xfChunk // WriteAt calls that were stored
+}
+
+var xfErrQuota = errors.New("quota exceeded (injected)")
+
+func (m *xfMemFS) SetLimit(n int64) { m.mu.Lock(); m.limit = n; m.applied = nil; m.mu.Unlock() }
+
+func (m *xfMemFS) TakeApplied() []xfChunk {
+	m.mu.Lock()
+	defer m.mu.Unlock()
+	a := m.applied
+	m.applied = nil
+	return a
 }
 
 func xfNewMemFS() *xfMemFS { return &xfMemFS{files: map[string][]byte{}} }
@@ -686,6 +720,15 @@ func (h *xfMemHandle) WriteAt(b []byte, off int64) (int, error) {
 	defer h.m.mu.Unlock()
 	if off < 0 {
 		return 0, os.ErrInvalid
+	}
+	if h.m.limit > 0 && len(b) > 0 && off+int64(len(b)) > h.m.limit {
+		return 0, xfErrQuota
+	}
+	if len(b) > 0 {
+		h.m.applied = append(h.m.applied, xfChunk{off, len(b)})
+		if len(h.m.applied) > 1<<16 {
+			h.m.applied = h.m.applied[len(h.m.applied)-1024:]
+		}
 	}
 	h.m.files[h.path] = xfOverwrite(h.m.files[h.path], off, b)
 	if h.m.files[h.path] == nil {
@@ -1044,7 +1087,7 @@ func xfReplayInputs(path string) ([]json.RawMessage, error) {
 
 type xfModel struct {
 	Plan, ReadAt, Seq bool
-	WTM, RFM         int // model switches for the two known defects, set from what the implementation shows
+	WTM, RFM          int // model switches for the two known defects, set from what the implementation shows
 }
 
 // xfProbeModel checks which xfer.* ops the driver has, using the examples its author published;
